@@ -30,7 +30,7 @@ LEVEL_NOTE = ("Trusts the classification of exceptions by their metadata (World.
               "those attributes disappear).")
 TECHNIQUE = "deterministic simulation, whole-API programs with random fault plans, exception-provenance and addressee monitors, livelock cap"
 
-PROGRAM = ("ProgError", "ProgErrorA", "ProgErrorB", "ProgErrorZ", "ProgKeyError", "ProgAssertion",
+PROGRAM = ("ProgError", "ProgErrorA", "ProgErrorB", "ProgErrorZ", "ProgKeyError", "ProgAssertion", "ProgAssertionZ",
            "ProgSystemExit", "ProgKeyboardInterrupt", "SimProgError")
 PRIVILEGED = ("AssertionError", "SystemExit", "KeyboardInterrupt")
 API = ("TaskCancelled", "TaskClosed", "VolatileTaskClosed", "StreamClosed", "ResourcesUnavailable",
